@@ -257,6 +257,8 @@ class Models:
         if name == "__class__":
             return [Res("ok", st, self.class_of(eng, st, v))]
         if name == "__dict__":
+            if eng.valid(st, is_cls(v)):
+                return [Res("ok", st, PClassDict(c_of(v)))]          # the own namespace of a class value
             return [Res("ok", st, PInstDict(a_of(v)))]
         h = self.attr_hooks.get(("pre", name))
         if h is not None:
@@ -678,6 +680,10 @@ class Models:
             item = eng.to_val(st, item)
             return [Res("ok", st, vbool(z3.And(is_str(item),
                     z3.Not(is_absent(z3.Select(st.get("idict", container.addr), s_of(item)))))))]
+        if isinstance(container, PClassDict):
+            item = eng.to_val(st, item)
+            return [Res("ok", st, vbool(z3.And(is_str(item),
+                    z3.Not(is_absent(z3.Select(st.get("cdict", container.cid), s_of(item)))))))]
         if isinstance(container, PKwargs):
             return self.kwargs_contains(eng, st, container, item)
         if isinstance(container, PView):
@@ -1552,6 +1558,13 @@ class Models:
     def bi_setattr(self, eng, st, pos, kw, fx):
         obj, name, val = pos
         nm = self.static_str(name)
+        if nm is None and is_val(obj) and eng.valid(st, is_cls(obj)) and is_val(name):
+            # setattr(cls, name, value) on a class value: a store into the class's own namespace
+            c = c_of(obj)
+            d = st.get("cdict", c)
+            st = st.fork()
+            st.heap["cdict"] = z3.Store(st.heap["cdict"], c, z3.Store(d, s_of(name), eng.to_val(st, val)))
+            return [Res("ok", st, NONE)]
         if nm is None:
             h = self.attr_hooks.get(("dynset", None))
             if h is not None:
